@@ -90,7 +90,8 @@ def res(pages):
     return d
 
 
-for pages in ([], [(2, 0, 0, 2)], [(1, 0, 0, 1), (4, 0, 0, 2)], [(3, 0, 0, 1)], [(2, 1, 0, 1)], [(4, 1, 1, 2)]):
+for pages in ([], [(2, 0, 0, 2)], [(1, 0, 0, 1), (4, 0, 0, 2)], [(3, 0, 0, 1)], [(2, 1, 0, 1)], [(4, 1, 1, 2)], [(3, 0, 1, 2)],
+              [(2, 1, 0, 1), (4, 0, 0, 1), (3, 1, 1, 1)], [(2, 0, 1, 1), (4, 1, 0, 2)]):
     case("READ ELEMENT STATUS pages %r" % (pages,), RE, lambda pages=pages: res(pages))
 # INQUIRY
 _hdr = lambda tag: leaves(INQ + "._datain_bits", tag)
